@@ -4,6 +4,7 @@ mod c04;
 mod c12;
 mod c13;
 mod c14;
+mod crash;
 mod dbsim;
 mod lsm;
 mod shard;
@@ -49,6 +50,22 @@ fn main() {
                 let secs = if tier == "thorough" { 3000 } else { 420 };
                 shard::run_sharded(&mut rep, "lsm", &pass, n, std::time::Duration::from_secs(secs), "c09:operation-hangs");
                 rep.rule = lsm::rule().to_string();
+                rep
+            }
+        }
+        "c02" | "c16" => {
+            let torn = comp == "c16";
+            let sh = shard::parse_shard(&args);
+            let cdir = format!("{corpus}/{}", if torn { "C16" } else { "C02" });
+            if sh.is_some() || replay.is_some() || std::env::var("VERIF_NOSHARD").is_ok() {
+                crash::run(torn, &tier, seed, replay.as_deref(), &cdir, sh)
+            } else {
+                let mut rep = report::Report::new(&comp, crash::rule(torn));
+                let n = par::threads();
+                let pass: Vec<String> = vec!["--tier".into(), tier.clone(), "--seed".into(), seed.to_string(), "--corpus".into(), corpus.clone()];
+                let secs = if tier == "thorough" { 3000 } else { 500 };
+                shard::run_sharded(&mut rep, &comp, &pass, n, std::time::Duration::from_secs(secs), "c09:operation-hangs");
+                rep.rule = crash::rule(torn).to_string();
                 rep
             }
         }
